@@ -81,3 +81,84 @@ class TracedWrapper:
         n = len(self._tracers)
         passed = member(ev_kwargs(b + n), '_trace_ctx')
         return not is_absent(passed) and (_trace_ctx is None or same(passed, _trace_ctx))
+
+
+# ------------------------------------------------------------------------------------------------ C08 single
+from spec.jsonrpc import id_ok, valid_response_obj
+from spec.wire import request_wire
+from pjrpc.common.v20 import BatchRequest, BatchResponse, Request, Response
+
+
+@contract('pjrpc.client.client:BaseAbstractClient._relate', props=['C08', 'C07'])
+class ClientRelate:
+    types = {'self': 'pjrpc.client.client:BaseAbstractClient', 'request': '=pjrpc.common.v20:Request',
+             'response': '=pjrpc.common.v20:Response'}
+    raises_only = ('pjrpc.common.exceptions:IdentityError',)
+    modifies = ('response._related',)
+
+    def requires_ids(self, request, response):
+        return id_ok(request._id) and id_ok(response._id)
+
+    def returns_iff(self, request, response):
+        # C08: in strict mode a response whose non-null id differs from the request id (by value AND JSON type)
+        # raises the identity error instead of returning data
+        mismatch = response._id is not None and not same(response._id, request._id)
+        return not (self.strict and mismatch)
+
+    def ensures_linked(self, request, response, result):
+        return result is None and same(response._related, request)
+
+    def ensures_on_IdentityError(self, request, response, exc):
+        # nothing is linked when the ids do not match
+        return same(response._related, old(response._related))
+
+
+# ------------------------------------------------------------------------------------------------ C07 / C08: the raw send
+import json
+from spec.prims import ufv
+from pjrpc.common.common import JSONEncoder
+
+
+def client_config_ok(c):
+    """A-classes: default message classes, stdlib json, library encoder"""
+    return (c.request_class is Request and c.response_class is Response
+            and c.batch_request_class is BatchRequest and c.batch_response_class is BatchResponse
+            and c.json_dumper is json.dumps and c.json_loader is json.loads and c.json_encoder is JSONEncoder
+            and issubclass(c.error_cls, exceptions.JsonRpcError))
+
+
+def transport_call(i, request, is_notification):
+    """C07: event i is the call of the transport with a text whose document is exactly the request's wire
+    form, flagged as a notification iff the request has no id; it returned"""
+    a = ev_args(i)
+    return (ev_kind(i) == 'call:_request' and ev_outcome(i) == 'ret' and len(a) == 2 and isinstance(a[0], str)
+            and request_wire(ufv('doc_of', a[0]), request) and same(a[1], is_notification))
+
+
+@contract('pjrpc.client.client:AbstractClient._send', also=('pjrpc.client.client:AbstractAsyncClient._send',),
+          props=['C07', 'C08', 'C11'])
+class RawSendSingle:
+    """the undecorated _send for a single request (the batch variant is a separate contract)"""
+    types = {'self': 'pjrpc.client.client:BaseAbstractClient', 'request': '=pjrpc.common.v20:Request',
+             'validator': '=UserValidator', '_trace_ctx': 'any'}
+    pins = {'response_class': 'pjrpc.common.v20:Response'}
+    raises_only = ('BaseException',)
+    modifies = ('$trace',)
+    cross_check = False
+
+    def requires_config(self, request, response_class, validator, _trace_ctx):
+        return (client_config_ok(self) and isinstance(request._method, str) and id_ok(request._id)
+                and (request._params is None or isinstance(request._params, (list, tuple, dict))))
+
+    def ensures_call(self, request, response_class, validator, _trace_ctx, result):
+        b = old(tlen())
+        if request._id is None:
+            # C07: a notification puts one document on the wire and returns nothing
+            return result is None and tlen() == b + 1 and transport_call(b, request, True)
+        # C08: the response was decoded from the body the transport returned and handed to the validator
+        # together with the request, exactly once
+        return (isinstance(result, Response) and tlen() == b + 2
+                and transport_call(b, request, False)
+                and valid_response_obj(ufv('parsed', ev_value(b)))
+                and ev_kind(b + 1) == 'call' and same(ev_callee(b + 1), validator) and ev_outcome(b + 1) == 'ret'
+                and same(ev_args(b + 1)[0], request) and same(ev_args(b + 1)[1], result))
